@@ -226,6 +226,24 @@ Definition product_kernel (k1 : vec -> vec -> T) (d1 : nat) (k2 : vec -> vec -> 
   k1 (firstn d1 x) (firstn d1 y) * k2 (skipn d1 x) (skipn d1 y).
 Definition kmatrix (k : vec -> vec -> T) (X1 X2 : list vec) : mat :=
   map (fun a => map (fun b => k a b) X2) X1.
+(* ---- sample_posterior_joint: layout of the draws and of the result (posterior_utils.py:215-228) ------ *)
+(* zc[j][s] = the N(0,1) vector (length n_test) of fantasy column j, sample s.  The implementation
+   concatenates the num_samples draws of shape (n_test, m, 1) along the last axis and reshapes to
+   (n_test, m * num_samples): flat column j * num_samples + s; multiplies by the factor of the posterior
+   covariance; reshapes back to (n_test, m, num_samples) and adds the posterior mean of column j. *)
+Definition vadd (a b : vec) : vec := map2 (add N) a b.
+Fixpoint chunk {A} (size fuel : nat) (l : list A) : list (list A) :=
+  match fuel with
+  | O => []
+  | S f => firstn size l :: chunk size f (skipn size l)
+  end.
+Definition joint_samples (lfact : mat) (mean_cols : list vec) (zc : list (list vec)) (num_samples : nat)
+  : list (list vec) :=
+  let flat := concat zc in                                   (* n01_mat, column j*num_samples + s *)
+  let prod := map (fun z => mv lfact z) flat in              (* anp.dot(lfact, n01_mat), column by column *)
+  let resh := chunk num_samples (length mean_cols) prod in   (* reshape (n_test, m, num_samples) *)
+  map2 (fun mj row => map (fun v => vadd v mj) row) mean_cols resh.
+
 (* ---- kernel objects: forward, diagonal and the diagonal_depends_on_X flag ---------------------- *)
 (* k_diag is KernelFunction.diagonal for ONE input row (diagonal(X) = map k_diag X);
    k_dep is diagonal_depends_on_X() *)
